@@ -22,6 +22,7 @@ import SwcVerif.Model.AlgoRunPopulation
 import SwcVerif.Model.AlgoRunNormalizer
 import SwcVerif.Model.AlgoRunBranches
 import SwcVerif.Model.AlgoRunRedirect
+import SwcVerif.Model.AlgoRunViews
 import SwcVerif.Model.AlgoRunAssemble
 import SwcVerif.Model.AlgoRunLMeasure
 import SwcVerif.Model.AlgoRunNodeBranch
@@ -72,6 +73,8 @@ def dispatch (op : String) (args : List String) : String :=
   | "glazy" => AlgoRun.handleLazy args
   | "gchain" => AlgoRun.handleChain args
   | "gredirect" => AlgoRun.handleRedirect args
+  | "gviews" => AlgoRun.handleViews args
+  | "gslice" => AlgoRun.handleSlice args
   | "glm" => AlgoRun.handleLm args
   | "gtips" | "gnodebranch" | "gnode" => AlgoRun.handleNodeBranch op args
   | "gmst" => AlgoRun.handleMst args
